@@ -2,9 +2,9 @@
 from harness._compute import search_with, sym_correspondence
 
 PROPERTY = "C13"
-LEAN_TARGETS = ['VectorModel.Props.C13', 'VectorModel.Dom.LorentzAcc', 'VectorModel.Refine.LorentzSigned', 'VectorModel.Refine.LorentzSigned2']
+LEAN_TARGETS = ['VectorModel.Props.C13', 'VectorModel.Dom.LorentzAcc', 'VectorModel.Refine.LorentzSigned', 'VectorModel.Refine.LorentzSigned2', 'VectorModel.Props.CanonClosed']
 # + regularity of the lorentz accessors (t from tau never NaN: dom_lorentz_t) and the signed-tau reading (tau < 0 iff spacelike, beta ranges)
-THEOREM_FILES = ['VectorModel/Props/C13.lean', 'VectorModel/Dom/LorentzAcc.lean', 'VectorModel/Refine/LorentzSigned.lean', 'VectorModel/Refine/LorentzSigned2.lean']
+THEOREM_FILES = ['VectorModel/Props/C13.lean', 'VectorModel/Dom/LorentzAcc.lean', 'VectorModel/Refine/LorentzSigned.lean', 'VectorModel/Refine/LorentzSigned2.lean', 'VectorModel/Props/CanonClosed.lean']
 NOT_COVERED = ['singular strata where the answer comes out of nan_to_num replacement values (exercised on the real code by the law sweep only)']
 ALWAYS_SEARCH = True          # the law sweep on the real code is cheap: run it in every tier (exploration, not proof)
 search = search_with("c13")
